@@ -441,7 +441,7 @@ static int c14_cmd (char *line)
   arg = strchr (line, ' ');
   clen = arg ? (size_t) (arg - line) : strlen (line);
 #define IS(s) (clen == strlen (s) && !strncmp (line, s, clen))
-  if (!(IS ("connect") || IS ("sendres") || IS ("write") || IS ("vwrite") || IS ("flush") || IS ("eflush") || IS ("cycle")
+  if (!(IS ("connect") || IS ("sendres") || IS ("write") || IS ("vwrite") || IS ("vwrite2") || IS ("flush") || IS ("eflush") || IS ("cycle")
         || IS ("wready") || IS ("flushall") || IS ("close") || IS ("peerclose") || IS ("peerfin") || IS ("dump")
         || IS ("snoop") || IS ("unsnoop") || IS ("react") || IS ("input")))
     return 0;
@@ -517,12 +517,56 @@ static int c14_cmd (char *line)
     existed[i] = U[i].created && U[i].ob->interactive != 0;
   eval_cost = CONFIG_INT (__MAX_EVAL_COST__);
 
-  if (IS ("write") || IS ("vwrite"))
+  if (IS ("vwrite2"))
+    {
+      /* add_vmessage (ob, "%s%s", a, b): the formatting step has to join two pieces */
+      char *copy = strdup (arg ? arg : ""), *sp = strchr (copy, ' ');
+      char *a, *b;
+      if (!sp)
+        return 0;
+      *sp++ = 0;
+      while (*sp == ' ')
+        sp++;
+      a = unhex (copy);
+      b = unhex (sp);
+      free (copy);
+      if (!a || !b)
+        return 0;
+      {
+        size_t la = strlen (a), lb = strlen (b);
+        unsigned char *j = (unsigned char *) malloc (la + lb + 1);
+        char *h;
+        memcpy (j, a, la);
+        memcpy (j + la, b, lb);
+        h = hexof (j, la + lb);
+        out ("vreq %s", h);
+        free (h);
+        free (j);
+      }
+      global = c14_reactive;
+      VH_TRY (econ)
+        add_vmessage (u->ob, "%s%s", a, b);
+      VH_CATCH (econ)
+        c14_cur = k;
+        out ("lpcerr");
+      VH_END
+      c14_cur = k;
+      free (a);
+      free (b);
+    }
+  else if (IS ("write") || IS ("vwrite"))
     {
       int v = line[0] == 'v';
       char *bytes = unhex (arg ? arg : "-");
       if (!bytes)
         return 0;
+      if (v)
+        {
+          /* what add_vmessage is asked to format; the hook's `wbeg v` shows what the formatting step produced */
+          char *h = hexof ((unsigned char *) bytes, strlen (bytes));
+          out ("vreq %s", h);
+          free (h);
+        }
       global = c14_reactive;
       VH_TRY (econ)
         if (v)
